@@ -46,6 +46,52 @@ pub fn enc_lr_tables(b: &Built) -> Option<String> {
     }
 }
 
+/// Bounded replay of the table-driven LR loop on the significant token types (generator-side guard
+/// only): `false` iff the run needs more than `limit` actions. Tables on which parol's LR parser
+/// does not terminate (finding F24: a loop of reductions that consumes no input) must not reach the
+/// in-process `run` of the differential checks; C19's watchdog runs them in their own process.
+pub fn lr_sim_terminates(b: &Built, toks: &[(Tok, bool)], limit: usize) -> bool {
+    let (table, productions) = match &b.tables {
+        Tables::LR { table, productions } => (table, productions),
+        _ => return true,
+    };
+    let mut input: Vec<u16> = toks.iter().filter(|(_, skip)| !*skip).map(|(t, _)| t.ty).collect();
+    input.push(0);
+    let mut pos = 0;
+    let mut stack: Vec<usize> = vec![0];
+    for _ in 0..limit {
+        let st = match table.states.get(*stack.last().unwrap()) {
+            Some(s) => s,
+            None => return true,
+        };
+        let t = input[pos.min(input.len() - 1)];
+        let ai = match st.actions.iter().find(|(tt, _)| *tt == t) {
+            Some((_, ai)) => *ai,
+            None => return true, // syntax error
+        };
+        match &table.actions[ai] {
+            LRAction::Shift(s) => {
+                stack.push(*s);
+                pos += 1;
+            }
+            LRAction::Reduce(n, p) => {
+                let len = productions.get(*p).map(|x| x.len).unwrap_or(0);
+                if len >= stack.len() {
+                    return true;
+                }
+                stack.truncate(stack.len() - len);
+                let st2 = &table.states[*stack.last().unwrap()];
+                match st2.gotos.iter().find(|(nn, _)| nn == n) {
+                    Some((_, s)) => stack.push(*s),
+                    None => return true,
+                }
+            }
+            LRAction::Accept => return true,
+        }
+    }
+    false
+}
+
 pub fn run_case(w: &[&str]) -> Option<String> {
     if w.len() < 13 || w[0] != "lr" {
         return None;
